@@ -277,3 +277,89 @@ def assoc(ctx):
         ctx.inconclusive.append("vacuity: correlate never completed")
     ctx.bounds.update({"outer": len(OUTER), "inner": len(INNER), "calls": len(ACALL)})
     ctx.sample({"paths": E.paths})
+
+
+# ---------------------------------------------------------------------------------------
+# O5: the same through the REAL reader: `;`-separated statements, trailing comments and literals holding `;`, `!`, doubled
+# quotes or call-like text on one PHYSICAL line
+# ---------------------------------------------------------------------------------------
+PHYS = [
+    ("continue", []),
+    ("x = bar(y); call foo(x)", ["bar", "foo"]),
+    ("call foo(x) ; call noargs", ["foo", "noargs"]),
+    ("print *, 'can''t recover; call foo(1) by hand'", []),
+    ("print *, 'that''s all'; call noargs", ["noargs"]),
+    ("print *, \"say \"\"hi\"\"; x = bar(1)\"", []),
+    ("print *, \"it's\"; x = baz(y)", ["baz"]),
+    ("x = len('a;b') ; x = bar(y) ! then call foo(x)", ["bar"]),
+    ("call foo(x) ! ; call noargs", ["foo"]),
+    ("print *, '!'; call noargs ! 'x'; x = bar(1)", ["noargs"]),
+    ("print *, 'a' // \"b;\" // 'c''' ; call foo(y)", ["foo"]),
+    ("x = bar( &", ["bar", "baz"]),   # continued over the next line (see _phys_lines)
+]
+CONT_TAIL = "        baz(y)); call noargs ! done"
+
+
+def _phys_lines(a, b):
+    """two physical lines (b may be the head of a continuation whose tail is fixed)"""
+    tail = choice.apply(lambda t: CONT_TAIL if t.endswith("&") else "continue", b)
+    return [a, b, tail]
+
+
+def _phys_expected(ea, eb, b):
+    extra = ["noargs"] if b.endswith("&") else []
+    return sorted(set(ea) | set(eb) | set(extra))
+
+
+def replay_phys(w):
+    import ford.sourceform as sf
+    old = sf.namelist
+    sf.namelist = sf.NameSelector()
+    try:
+        p = parserh.project_concrete({"a.f90": list(MODULE), "b.f90": _caller(w["lines"])}, physical=("b.f90",), **PSET)
+        got = sorted(_callnames(p))
+    finally:
+        sf.namelist = old
+    want = sorted(set(w["expected"]))
+    return got != want, {"physical lines": w["lines"], "ford_calls": got, "invoked": want}
+
+
+@obligation("C08", "O5.calls-through-the-reader", engine="SX(CV)", timeout=1800)
+def calls_phys(ctx):
+    """caller body given as PHYSICAL lines and read by the real FortranReader: `;` outside literals separates statements,
+    `!` outside literals starts a comment, literals (doubled quotes, both kinds) hide everything: recorded calls = invoked"""
+    import ford.sourceform as sf
+    import ford.reader as rd
+    import ford.utils as fu
+
+    ctx.encode_fn(rd.FortranReader.__next__)
+    ctx.encode_fn(fu.quote_split)
+    ctx.encode_fn(sf.FortranContainer._add_procedure_calls)
+    ctx.bounds.update({"physical_line_options": len(PHYS), "lines_per_body": 2})
+    ctx.stubs.append("the stream of the caller's file is the list of symbolic physical lines; the other file is a statement list")
+
+    def h(E):
+        a = CV.choice(E, "l1", PHYS[:-1])
+        b = CV.choice(E, "l2", PHYS)
+        lines = _phys_lines(a[0], b[0])
+        want = choice.apply(_phys_expected, a[1], b[1], b[0])
+        E.e.snapshot = lambda m: {"lines": _caller([choice.value_in_model(m, x) for x in lines]), "expected": choice.value_in_model(m, want)}
+        p = parserh.project({"a.f90": list(MODULE), "b.f90": _caller(lines)}, physical=("b.f90",), **PSET)
+        names = _callnames(p)
+        E.reachable("correlated")
+        got = choice.apply(lambda *n: sorted(n), *names) if names else []
+        E.require(choice.apply(lambda g, w_: list(g) == list(w_), got, want), "recorded calls differ from the procedures invoked")
+
+    E = sym.Engine(ctx, max_paths=100000, incremental=True)
+    found = E.explore(h)
+    seen = set()
+    for (label, m, pc), snap in zip(found, E.snapshots):
+        if label in seen or not snap:
+            continue
+        seen.add(label)
+        ctx.report(label, {"lines": snap["lines"][5:-1], "expected": snap["expected"]}, replay_phys)
+    if E.reached.get("correlated"):
+        ctx.twins += 1
+    else:
+        ctx.inconclusive.append("vacuity: correlate never completed")
+    ctx.sample({"paths": E.paths})
